@@ -9,8 +9,8 @@
 EXTENDS ProbeSim, Json
 
 CONSTANT ACTS    \* classes of editing calls in the alphabet of this configuration
-VARIABLES obs, eff
-allvars == <<mvars, obs, eff>>
+VARIABLES obs, eff, jac
+allvars == <<mvars, obs, eff, jac>>
 
 BranchOfRowMC == <<0, 0, 1, 2, 2, 2>>
 ViewsMC == [ all  |-> [rows |-> 0..5,      by |-> "one"],
@@ -24,11 +24,12 @@ KMC == <<2, 4, 6, 8, 10, 12>>
 
 \* every editing action keeps the observation empty and refreshes the derived column `eff`
 \* (what get_all_parameters / get_all_states must return), which the replay compares as well
-Aux == obs = <<>> /\ UNCHANGED obs /\ eff' = [k \in Keys |-> Eff(k)']
+Jac == [i \in DOMAIN trains |-> [G \in trains[i].groups |-> DEff(i, G)]]
+Aux == obs = <<>> /\ UNCHANGED obs /\ eff' = [k \in Keys |-> Eff(k)'] /\ jac' = Jac'
 Integrate ==
   /\ obs = <<>> /\ CanIntegrate
   /\ obs' = Obs
-  /\ UNCHANGED <<mvars, eff>>
+  /\ UNCHANGED <<mvars, eff, jac>>
 \* named wrappers: TLC labels the edges of the dumped state graph with these names and arguments
 AInsert(ch, vn) == "insert" \in ACTS /\ Insert(ch, vn) /\ Aux
 ADeleteChannel(ch, vn) == "delete" \in ACTS /\ DeleteChannel(ch, vn) /\ Aux
@@ -58,12 +59,16 @@ Next ==
   \/ \E s \in {"v", "A_s"}, vn \in {"all", "c0"} : ADeleteClamps(s, vn)
   \/ AWriteTrainables
   \/ Integrate
-Init == MInit /\ obs = <<>> /\ eff = [k \in Keys |-> Eff(k)]
+Init == MInit /\ obs = <<>> /\ eff = [k \in Keys |-> Eff(k)] /\ jac = <<>>
 Spec == Init /\ [][Next]_allvars
-StateView == <<has, col, colset, reg, curs, groups, recs, ext, nin, trains, obs, eff>>     \* depth hidden
+StateView == <<has, col, colset, reg, curs, groups, recs, ext, nin, trains, obs, eff, jac>>     \* depth hidden
 
 ASSUME PrintT(<<"MODEL", ToJson([branch_of_row |-> BranchOfRow, views |-> Views, K |-> K, T |-> T])>>)
 \* C10: after write_trainables the tables alone (without the trainables) give the simulated values
 WriteStoresSimulated == [][AWriteTrainables => \A k \in Keys : col'[k] = eff'[k] \/ ~ \E i \in DOMAIN trains : trains[i].key = k]_allvars
+\* C05: every row a trainable can influence belongs to one of its groups, and groups of one trainable are disjoint
+GradIsTransposeOfScatter ==
+  \A i \in DOMAIN trains : /\ \A G \in trains[i].groups : jac[i][G] \subseteq G
+                            /\ \A G1, G2 \in trains[i].groups : G1 # G2 => G1 \cap G2 = {}
 IntegrateIsPure == [][obs' # obs => UNCHANGED mvars]_allvars
 =============================================================================
